@@ -49,6 +49,8 @@ mc("LiveProbe", consts(**PROBE, dup=False), props="EventuallyAnswered")
 # bounded time (clock, zero-time steps first): D < W and W < D
 mc("TimeDW", consts(**PROBE, D=2, W=3, maxT=6, maxArr=2, timed=True, urgent=True, dup=False), inv="InTime")
 mc("TimeWD", consts(**ORD, D=3, W=2, maxT=6, maxArr=2, timed=True, urgent=True, dup=False), inv="InTime")
+mc("TimeDW2", consts(**PROBE2, D=2, W=3, maxT=6, maxArr=2, timed=True, urgent=True, dup=False), inv="InTime")
+mc("TimeWD2", consts(**ORD2, D=3, W=2, maxT=6, maxArr=2, timed=True, urgent=True, dup=False), inv="InTime")
 # the writer guard is what AtMostOneReply rests on: TLC must find the violation without it
 mc("NoGuard", consts(**ORD2, guard=False))
 # behaviours for the replay drivers
